@@ -237,7 +237,9 @@ def print_probe(run_, prog, out, prop):
                 try:
                     targets.append((h, tbl >> pdt.ungroup() >> pdt.export(pdt.Polars())))
                     run_.counters["print_probes_grouped"] += 1
-                except Exception:  # noqa: BLE001
+                except (KeyboardInterrupt, SystemExit):
+                    raise
+                except BaseException:  # noqa: BLE001  (engine panics derive from BaseException)
                     continue
         M.SAN.drain()
         for h, df in targets:
@@ -258,7 +260,9 @@ def print_probe(run_, prog, out, prop):
                     if cols and not tbl._cache.partition_by:
                         repr(cols[0])
                     str(tbl)
-            except Exception as e:  # noqa: BLE001
+            except (KeyboardInterrupt, SystemExit):
+                raise
+            except BaseException as e:  # noqa: BLE001
                 out.findings.append(Finding("print:" + be, be, h, f"printing the table raised {type(e).__name__}: {str(e)[:200]}", verb="repr", exc=type(e).__name__))
                 continue
             run_.counters["print_probes"] += 1
